@@ -326,6 +326,21 @@ def run(ctx: Ctx):
            "None is not rendered as an empty cell", key="R18.4|_format_value|none")
     # scenario-specific vs plain access chosen by the column table
     ok = any(isinstance(i, ast.If) and "is_scenario_specific" in norm(i.test) for i in own_nodes(gcv))
+    if not ok:
+        # by control dependence: the read with a scenario argument runs only where the column table said "scenario specific" (the
+        # answer may have been put into a local first), and a read without one exists for the other columns
+        ggc, fgc = cfg_of(gcv), ctx.dep.of(gcv)
+        two, one = [], []
+        for st in own_nodes(gcv):
+            if isinstance(st, ast.stmt) and not isinstance(st, (ast.If, ast.For, ast.While, ast.Try, ast.With, ast.FunctionDef)):
+                for c in ast.walk(st):
+                    if isinstance(c, ast.Call) and isinstance(c.func, ast.Attribute) and c.func.attr == "get" and c.args \
+                            and norm(c.args[0]) == "column_id":
+                        (two if len(c.args) == 2 else one).append(st)
+        def _ctl(st):
+            nd = ggc.node_of(st)
+            return {a.lstrip("~") for a in fgc.ctl_atoms(nd)} if nd is not None else set()
+        ok = bool(two) and bool(one) and all("call:is_scenario_specific" in _ctl(st) for st in two)
     ctx.ob("R18.4", f"{gcv.qual}: access form chosen by the column table", gcv, ok, "get(id, scenario) vs get(id)" if ok else
            "cell lookup no longer distinguishes scenario-specific attributes", key="R18.4|_get_cell_value|dispatch")
     # ---------------------------------------------------------------- R18.5
